@@ -14,3 +14,24 @@ def mechanism(name):
         return fn
 
     return deco
+
+
+def _neg_source_with_rs(args):
+    try:
+        return args["vo"] < 0 and abs(args.get("rs", 0.0)) > 0
+    except Exception:
+        return False
+
+
+@mechanism("source.negative_vo_with_rs")
+def source_negative_vo_with_rs(v):
+    """F1: Source(vo<0, rs>0) computes vo - rs*io, so the magnitude rises under load.
+
+    Matches only row-level clauses whose failing row IS such a source (or a system balance in a
+    phase where such a source delivers current)."""
+    d = v["detail"]
+    if v["clause"].split(":")[-1] in ("law.vout", "energy.row", "energy.eff", "phys.no_gain", "energy.loss_range"):
+        return d.get("kind") == "Source" and _neg_source_with_rs(d.get("args", {}))
+    if v["clause"].split(":")[-1] == "energy.system":
+        return bool(d.get("neg_sources_with_rs_live"))
+    return False
